@@ -638,6 +638,8 @@ def run(R):
         max_datagram(R)
     if R.shard == 2 % R.nshards:
         long_lived_client(R)
+    if R.shard == 3 % R.nshards:
+        after_a_failed_first_call(R)
     if R.shard == 0:
         db = {(1, 3, 6, 1, 2, 1, 1, 1, 0): ("str", b"x"), (1, 3, 6, 1, 2, 1, 1, 2, 0): ("int", 2)}
         last = (1, 3, 6, 1, 2, 1, 1, 2, 0)
@@ -664,6 +666,89 @@ def run(R):
                 run_case(R, level, "bulkget", {**db, **mpd}, {"scalars": [], "repeaters": [(1, 3, 6, 1, 6, 3, 11)], "maxrep": 5}, "corner-reportstats")
             run_case(R, level, "multiget", {**db, **stats}, {"oids": sorted(stats)[:3]}, "corner-usmstats")
             run_case(R, level, "getnext", {**db, **stats}, {"oids": [(1, 3, 6, 1, 6, 3, 15, 1, 1, 3)]}, "corner-usmstats")
+
+
+def after_a_failed_first_call(R):
+    """The path after a failure: the client's very first call fails on the way (the reply
+    to its first datagram - for SNMPv3 the discovery - is lost, is garbage, or the caller
+    gives up with wait_for); the ordinary calls after it get the agent's answers."""
+    import asyncio
+
+    keys = [(1, 3, 6, 1, 4, 1, 4242, 6, i, 0) for i in range(1, 6)]
+    db = {k: ("int", 100 + k[-2]) for k in keys}
+    for level in rig.LEVELS:
+        for how in ("lost", "garbage", "given-up"):
+            w = World(level, db)
+            c = w.client
+            inner = w.seam.responder
+            seen = {"n": 0}
+
+            def unlucky(data, how=how, inner=inner, seen=seen):
+                seen["n"] += 1
+                resp = inner(data)
+                if seen["n"] > 1:
+                    return resp
+                return None if how == "lost" else b"\x30\x03\x02\x01\x07"
+
+            case = _case(level, "after-failed-first-call", {}, args={"how": how})
+            if how == "given-up":
+                # the caller's wait_for gives up while the call's first datagram is out
+                class Gate:
+                    hold = True
+
+                    async def __call__(self, endpoint, packet, timeout=None, retries=None, loop=None):
+                        if self.hold:
+                            await asyncio.get_running_loop().create_future()  # never answered
+                        return await w.seam(endpoint, packet, timeout=timeout, retries=retries)
+
+                gate = Gate()
+                c = type(c)("192.0.2.1", w.creds, sender=gate)
+
+                async def give_up():
+                    try:
+                        await asyncio.wait_for(c.get(OID(keys[0])), 0.01)
+                        return "answered"
+                    except (asyncio.TimeoutError, asyncio.CancelledError):
+                        return "gave up"
+
+                try:
+                    gave_up = rig._run(give_up())
+                except BaseException:  # noqa: BLE001 - this rig could not arrange it
+                    gave_up = None
+                gate.hold = False
+                if gave_up != "gave up":
+                    R.mon["give_up_not_arranged"] += 1
+                    continue
+            else:
+                w.seam.responder = unlucky
+                first = rig.outcome(lambda: drive(c.get(OID(keys[0]))))
+                w.seam.responder = inner
+                if first[0] == "ok":
+                    R.violation(case, "the first call's only reply was %s, yet it returned %r" % (how, first[1]), None)
+                    continue
+            for j, op in enumerate(("get", "multiget", "getnext", "set", "get")):
+                w.seam.reset(budget=8)
+                R.evaluations += 1
+                if op == "get":
+                    res = rig.outcome(lambda: drive(c.get(OID(keys[j % 5]))))
+                    want, got = db[keys[j % 5]], (to_tuple(res[1]) if res[0] == "ok" else None)
+                elif op == "multiget":
+                    res = rig.outcome(lambda: drive(c.multiget([OID(k) for k in keys[:3]])))
+                    want, got = [db[k] for k in keys[:3]], ([to_tuple(v) for v in res[1]] if res[0] == "ok" else None)
+                elif op == "getnext":
+                    res = rig.outcome(lambda: drive(c.getnext(OID(keys[1]))))
+                    want, got = (keys[2], db[keys[2]]), ((oid_t(res[1].oid), to_tuple(res[1].value)) if res[0] == "ok" else None)
+                else:
+                    res = rig.outcome(lambda: drive(c.set(OID(keys[4]), rig.from_tuple(("int", 77)))))
+                    want, got = ("int", 77), (to_tuple(res[1]) if res[0] == "ok" else None)
+                    db = dict(db)
+                    db[keys[4]] = ("int", 77)
+                if res[0] != "ok" or got != want:
+                    R.violation(case, "after a first call that failed (%s), %s on the same client gave %r, the agent answered %r" % (how, op, res[1] if res[0] != "ok" else got, want), None)
+                    break
+            else:
+                R.mon["clients_fine_after_a_failed_first_call"] += 1
+            db = {k: ("int", 100 + k[-2]) for k in keys}
 
 
 def long_lived_client(R):
@@ -752,6 +837,9 @@ def replay(R, v):
 
     if v["case"].get("op") == "long-lived":
         long_lived_client(R)
+        return
+    if v["case"].get("op") == "after-failed-first-call":
+        after_a_failed_first_call(R)
         return
 
     c = v["case"]
